@@ -193,7 +193,9 @@ fn handle_posting_value(
                             }
                             val_pos_commodity
                         }
-                        None => settings.get_or_create_commodity(None)?,
+                        // opening position without closing position:
+                        // the posting is valued in its own commodity
+                        None => settings.get_or_create_commodity(Some(u.0))?,
                     }
                 }
                 None => {
